@@ -94,23 +94,24 @@ type ErrInfo struct {
 
 // CallResult is everything observable about one Parse call.
 type CallResult struct {
-	Value     string         `json:"value"`
-	ValueNil  bool           `json:"value_nil"`
-	ErrNil    bool           `json:"err_nil"`
-	ErrIsList bool           `json:"err_is_list"`
-	ErrText   string         `json:"err_text,omitempty"`
-	Errs      []ErrInfo      `json:"errs,omitempty"`
-	Escaped   string         `json:"escaped,omitempty"` // rendering of a panic value that reached the caller
-	EscapedT  string         `json:"escaped_type,omitempty"`
-	ExprCnt   uint64         `json:"expr_cnt"`
-	Steps     int64          `json:"steps"`
-	Aborted   bool           `json:"aborted,omitempty"`  // stopped by the step cap
-	Overflow  bool           `json:"overflow,omitempty"` // stopped by the event cap
-	Backward  bool           `json:"backward,omitempty"` // globalStore counter not monotone
-	Nested    int            `json:"nested,omitempty"`   // re-entrant parses made by code blocks
-	Events    []kernel.Event `json:"events,omitempty"`
-	Injected  []InjectedInfo `json:"injected,omitempty"`
-	ctx       *kernel.Ctx
+	Value       string         `json:"value"`
+	ValueNil    bool           `json:"value_nil"`
+	ErrNil      bool           `json:"err_nil"`
+	ErrIsList   bool           `json:"err_is_list"`
+	ErrText     string         `json:"err_text,omitempty"`
+	Errs        []ErrInfo      `json:"errs,omitempty"`
+	Escaped     string         `json:"escaped,omitempty"` // rendering of a panic value that reached the caller
+	EscapedT    string         `json:"escaped_type,omitempty"`
+	ExprCnt     uint64         `json:"expr_cnt"`
+	Steps       int64          `json:"steps"`
+	Aborted     bool           `json:"aborted,omitempty"`      // stopped by the step cap
+	Overflow    bool           `json:"overflow,omitempty"`     // stopped by the event cap
+	Backward    bool           `json:"backward,omitempty"`     // globalStore counter not monotone
+	Nested      int            `json:"nested,omitempty"`       // re-entrant parses made by code blocks
+	StatsDigest string         `json:"stats_digest,omitempty"` // the caller's Stats.ChoiceAltCnt after the parse
+	Events      []kernel.Event `json:"events,omitempty"`
+	Injected    []InjectedInfo `json:"injected,omitempty"`
+	ctx         *kernel.Ctx
 }
 
 // InjectedInfo is the JSON form of an injected error.
@@ -138,7 +139,7 @@ func (p *Parser) Exec(c *Call, cl *simrt.Client) *CallResult {
 	simrt.Yield(simrt.YEntry)
 	val, err, esc, cnt := p.Parse("f.txt", c.Input, &c.Opts, ctx)
 	simrt.Yield(simrt.YExit)
-	r := &CallResult{ctx: ctx, ExprCnt: cnt, Steps: cl.Steps - start, Aborted: cl.Aborted, Overflow: ctx.Overflow, Backward: ctx.Backward, Nested: ctx.NestedRuns}
+	r := &CallResult{ctx: ctx, ExprCnt: cnt, Steps: cl.Steps - start, Aborted: cl.Aborted, Overflow: ctx.Overflow, Backward: ctx.Backward, Nested: ctx.NestedRuns, StatsDigest: ctx.StatsDigest}
 	r.Value = kernel.Render(val)
 	r.ValueNil = val == nil
 	r.ErrNil = err == nil
@@ -286,4 +287,28 @@ func DeepHash(v any) uint64 {
 	}
 	walk(reflect.ValueOf(v))
 	return h
+}
+
+// DigestChoiceStats renders the Statistics option's ChoiceAltCnt map canonically.
+func DigestChoiceStats(m map[string]map[string]int) string {
+	keys := make([]string, 0, len(m))
+	for k := range m {
+		keys = append(keys, k)
+	}
+	sort.Strings(keys)
+	var b []byte
+	for _, k := range keys {
+		inner := make([]string, 0, len(m[k]))
+		for kk := range m[k] {
+			inner = append(inner, kk)
+		}
+		sort.Strings(inner)
+		b = append(b, k...)
+		b = append(b, '{')
+		for _, kk := range inner {
+			b = append(b, fmt.Sprintf("%s:%d ", kk, m[k][kk])...)
+		}
+		b = append(b, '}', ' ')
+	}
+	return string(b)
 }
